@@ -32,7 +32,7 @@ Definition recv1 (s : bytes) : rres * bytes :=
   end.
 
 (* the code before the F7 repair: min(length, limit) bytes were read as the message *)
-Definition recv1_old (s : bytes) : rres * bytes :=
+Definition recv1_old_with (limit : Z) (s : bytes) : rres * bytes :=
   match s with
   | [] => (REof, [])
   | _ =>
@@ -41,10 +41,12 @@ Definition recv1_old (s : bytes) : rres * bytes :=
         let len := be32 (firstn 4 (skipn 1 s)) in
         let rest := skipn 5 s in
         if len =? 0 then (RMsg [], rest)
-        else let n := Z.min len max_len in
+        else let n := Z.min len limit in
              if zlen rest <? n then (RErr 14, [])
              else (RMsg (firstn (Z.to_nat n) rest), skipn (Z.to_nat n) rest)
   end.
+
+Definition recv1_old := recv1_old_with max_len.
 
 (* a client-streaming call: messages are received until EOF or an error; fuel = number of bytes + 1 *)
 Fixpoint recv_all_with (recv : bytes -> rres * bytes) (fuel : nat) (s : bytes) : list bytes * Z :=
@@ -113,13 +115,18 @@ Fixpoint pct_decode (fuel : nat) (s : bytes) : bytes :=
   | O => s
   | S f =>
       match s with
-      | 37%N :: a :: b :: r =>
-          match unhex a, unhex b with
-          | Some x, Some y => (x * 16 + y)%N :: pct_decode f r
-          | _, _ => 37%N :: pct_decode f (a :: b :: r)
-          end
-      | c :: r => c :: pct_decode f r
       | [] => []
+      | c :: r =>
+          if (c =? 37)%N then
+            match r with
+            | a :: b :: r' =>
+                match unhex a, unhex b with
+                | Some x, Some y => (x * 16 + y)%N :: pct_decode f r'
+                | _, _ => c :: pct_decode f r
+                end
+            | _ => c :: pct_decode f r
+            end
+          else c :: pct_decode f r
       end
   end.
 Definition pct_dec (s : bytes) : bytes := pct_decode (length s) s.
@@ -166,3 +173,99 @@ Definition s_grpc_message : bytes := [103;114;112;99;45;109;101;115;115;97;103;1
 (* the model of the response: data frames, then one trailer frame with status and escaped message (+ allowed trailer md) *)
 Definition resp_frames (msgs : list bytes) (code : Z) (msg : bytes) : list (N * bytes) * list (bytes * bytes) :=
   (map (fun m => (0%N, m)) msgs, [(s_grpc_status, dec_digits 0 code); (s_grpc_message, path_escape msg)]).
+
+(* ================= val coding, runners, executable properties ================= *)
+Definition v_bl (l : list bytes) : val := VL (map VS l).
+Definition as_bl (v : val) : list bytes := map as_S (as_L v).
+
+(* ---- part frames: input ( chunks intended-payloads tail-kind ) ; impl ( payloads status ) ---- *)
+Definition run_frames (v : val) : val :=
+  let '(ps, c) := recv_chunks (as_bl (nthv 0 v)) in VL [v_bl ps; VN c].
+(* 1: a frame within the limit was not delivered intact / in order / exactly once
+   2: a malformed or oversize tail did not end the call with an error (or a clean stream did) *)
+Definition prop_frames (input impl : val) : option Z :=
+  let intended := nthv 1 input in
+  let tail := as_Z (nthv 2 input) in
+  let st := as_Z (nthv 1 impl) in
+  if negb (val_eqb (nthv 0 impl) intended) then Some 1
+  else if Z.eqb tail 0 then (if Z.eqb st 0 then None else Some 2)
+  else (if Z.eqb st 0 then Some 2 else None).
+Definition chk_c08_frames : val -> val := mk_chk run_frames prop_frames.
+
+(* ---- part big: input ( declared actual ) ; impl ( delivered-length status ) ---- *)
+Definition run_big (v : val) : val :=
+  let '(d, c) := big_outcome (as_Z (nthv 0 v)) (as_Z (nthv 1 v)) in VL [VN d; VN c].
+Definition prop_big (input impl : val) : option Z :=
+  let declared := as_Z (nthv 0 input) in
+  let actual := as_Z (nthv 1 input) in
+  let d := as_Z (nthv 0 impl) in
+  let st := as_Z (nthv 1 impl) in
+  if (declared <=? 4194304) && (declared <=? actual)
+  then (if Z.eqb d declared && Z.eqb st 0 then None else Some 1)   (* within the limit: delivered whole *)
+  else (if Z.eqb d (-1) && negb (Z.eqb st 0) then None else Some 3). (* 3: oversize/short frame truncated or accepted *)
+Definition chk_c08_big : val -> val := mk_chk run_big prop_big.
+
+(* ---- part ws: input ( messages intended-payloads end-kind ) ; impl ( payloads end ) ---- *)
+Definition run_ws (v : val) : val :=
+  let '(ps, e) := ws_recv_all false (as_bl (nthv 0 v)) in VL [v_bl ps; VN e].
+Definition prop_ws (input impl : val) : option Z :=
+  if negb (val_eqb (nthv 0 impl) (nthv 1 input)) then Some 1
+  else if Z.eqb (as_Z (nthv 1 impl)) (as_Z (nthv 2 input)) then None else Some 2.
+Definition chk_c08_ws : val -> val := mk_chk run_ws prop_ws.
+
+(* ---- part resp: input ( msgs code message ) ; impl ( http-status raw-body ) ---- *)
+Fixpoint insert_bp (kv : bytes * bytes) (m : list (bytes * bytes)) : list (bytes * bytes) :=
+  match m with
+  | [] => [kv]
+  | kv' :: r => if bytes_leb (fst kv) (fst kv') then kv :: m else kv' :: insert_bp kv r
+  end.
+Definition sort_bp (m : list (bytes * bytes)) := fold_right insert_bp [] m.
+Definition v_bp (m : list (bytes * bytes)) : val := VL (map (fun kv => VL [VS (fst kv); VS (snd kv)]) (sort_bp m)).
+Definition v_frames (fs : list (N * bytes)) : val := VL (map (fun f => VL [VN (Z.of_N (fst f)); VS (snd f)]) fs).
+
+Definition norm_body (http : Z) (body : bytes) : val :=
+  let '(fs, leftover) := parse_frames (S (length body)) body in
+  let datas := removelast fs in
+  let lastf := last fs (0%N, []) in
+  VL [VN http; v_frames datas; VN (Z.of_N (fst lastf)); v_bp (trailer_pairs (snd lastf)); VS leftover].
+
+Definition run_resp (v : val) : val :=
+  let '(fs, tr) := resp_frames (as_bl (nthv 0 v)) (as_Z (nthv 1 v)) (as_S (nthv 2 v)) in
+  VL [VN 200; v_frames fs; VN 128; v_bp tr; VS []].
+
+Fixpoint lookup_bp (k : bytes) (m : list (bytes * bytes)) : option bytes :=
+  match m with [] => None | (k', v) :: r => if bytes_eqb k k' then Some v else lookup_bp k r end.
+
+(* 1: not HTTP 200   2: body is not data frames followed by exactly one final trailer frame
+   3: grpc-status / grpc-message do not equal the outcome (message must percent-decode to the original and be plain ASCII)
+   4: response messages altered, dropped or reordered *)
+Definition prop_resp (input impl : val) : option Z :=
+  let msgs := as_bl (nthv 0 input) in
+  let code := as_Z (nthv 1 input) in
+  let msg := as_S (nthv 2 input) in
+  let body := as_S (nthv 1 impl) in
+  let '(fs, leftover) := parse_frames (S (length body)) body in
+  if negb (Z.eqb (as_Z (nthv 0 impl)) 200) then Some 1
+  else match leftover, rev fs with
+       | [], (lf, lp) :: rdatas =>
+           if negb (N.eqb lf 128) || existsb (fun f => negb (N.eqb (fst f) 0)) rdatas then Some 2
+           else if negb (list_eqb bytes_eqb (map snd (rev rdatas)) msgs) then Some 4
+           else
+             let tp := trailer_pairs lp in
+             match lookup_bp s_grpc_status tp, lookup_bp s_grpc_message tp with
+             | Some st, Some gm =>
+                 if bytes_eqb st (dec_digits 0 code) && bytes_eqb (pct_dec gm) msg &&
+                    forallb (fun c => (33 <=? c)%N && (c <=? 126)%N) gm then None else Some 3
+             | _, _ => Some 3
+             end
+       | _, _ => Some 2
+       end.
+
+Definition chk_c08_resp (c : val) : val :=
+  let input := nthv 0 c in
+  let impl := nthv 1 c in
+  match prop_resp input impl with
+  | Some r => verdict_propfail r (run_resp input)
+  | None => let n := norm_body (as_Z (nthv 0 impl)) (as_S (nthv 1 impl)) in
+            if val_eqb (run_resp input) n then verdict_ok else verdict_mismatch (run_resp input)
+  end.
